@@ -25,7 +25,9 @@ def register(claim, na):
         "the verifier's bit-level embedding oracle is decided by z3 for ALL values of the unknowns. Structure (width, length, pool) is the bound. "
         "Every lift and circuit instance also has a NUMERIC twin (all parameters bound to dyadic numbers, numeric state vectors of complex and float "
         "dtype: all basis vectors and dense vectors) through apply, sequential apply and every simulator variant; constant gates come as dense, "
-        "diagonal, monomial and numeric controlled-rotation matrices - the branch a symbolic run cannot take, counted as ground instances.",
+        "diagonal, monomial and numeric controlled-rotation matrices - the branch a symbolic run cannot take, counted as ground instances. "
+        "Ground as well: numeric runs on 9-qubit (thorough: 10) registers for arity-3/4 gates on every cyclic order of index tuples reaching across the register "
+        "(tensor/einsum oracle, no 2^n x 2^n matrix), and custom gates that re-use a gate name and parameter values with a different matrix inside one circuit and from one circuit to the next.",
         "Trusted: sympy arithmetic, translator (cross-checked by exact Laurent form; counterexamples replayed on the real code), z3/cvc5. "
         "MultiPhaseOperation phases and constant-gate lifts are ground (no free variable) and counted apart. Arity-4 only in the thorough tier with a sparse generic gate.",
         "symbolic execution of the real circuit code on generic sympy gates/states + z3 QF_NRA identity checking against an embedding oracle",
@@ -65,7 +67,8 @@ def register(claim, na):
         "conjugate transpose, circuit+inverse is the identity (unitary gates), double inverse keeps the action, controlled(k) is "
         "|0><0|xI + |1><1|xU with shifted indices for every control position, a layer is the tensor product with row i on qubit i, and "
         "ancillas act as U x I; structural clauses (one gate per distinct qubit, rows used once, inputs untouched) are compared concretely. "
-        "Every built-in gate of the library's table (read at run time) additionally appears bare as a one-operation circuit under controlled(k) for k below and above it and under inverse().",
+        "Every built-in gate of the library's table (read at run time) additionally appears bare as a one-operation circuit under controlled(k) for k below and above it and under inverse(). "
+        "Every symbolic inverse/controlled instance has a numeric twin (parameters bound to numbers - zero, over-turn, look-alike ints - BEFORE the construction is asked for; ground).",
         "Trusted: sympy, translator (Fourier cross-check + replay), z3. Power/exp-wrapped gates are ground instances. Parameter rows are "
         "Python lists of symbols. Known finding F2-inverse (fractional power of a self-adjoint-flagged gate).",
         "symbolic execution of circuit constructions on sympy symbols + z3 QF_NRA identity checking against algebraic oracles",
@@ -91,7 +94,9 @@ def register(claim, na):
         "coefficients the term circuit's matrix is compared with cos(tc)I - i sin(tc)P; for Hamiltonians of <= 3 terms and 1..3 steps the "
         "circuit is compared with the ordered product of per-term evolutions for time/steps; for derivatives the factor-weighted sum of "
         "conj(U_k[i,a])U_k[j,b] is compared with d/dt(conj(U[i,a])U[j,b]) for every index quadruple (all observables and states at once). "
-        "Each entry identity is decided for every real t by z3 over the circle (cvc5 / exact Fourier certificate when z3 gives up, counted apart).",
+        "Each entry identity is decided for every real t by z3 over the circle (cvc5 / exact Fourier certificate when z3 gives up, counted apart). "
+        "Terms reaching qubit indices >= 8 (thorough: up to 33) are decided for all t on the circuit re-indexed (order-preserving) onto the qubits it touches. "
+        "Every term / sum / derivative instance has a numeric-time twin (float, int, zero, negative times; analytic product-rule oracle for the derivative; ground).",
         "Trusted: sympy (incl. differentiation of the evolution matrix), translator (Fourier cross-check + replay), z3. H and RX(pi/2) constants "
         "are doubles (tolerance 1e-9); dyadic coefficients; the imaginary-part guard and constant-term clauses are ground instances.",
         "symbolic execution of evolution.py with a symbolic time + z3 QF_NRA over the circle; Fourier-form differentiation for the derivative clause",
@@ -220,7 +225,8 @@ def register(claim, na):
         "in the thorough tier) up to its final hand-over, and z3 decides sum_i coeff_i * P(label_i) = M entry by entry for all entries. "
         "expectation() (row and column vectors) and get_expectation_value (both reverse flags, through the real Wavefunction constructor under the "
         "path condition norm = 1) run on states whose amplitudes are all symbolic; z3 decides value = <psi|M|psi> with M the verifier's tensor-product "
-        "matrix (bit-reversed for reverse_operator=True). get_sparse_operator itself runs on the nine operator shapes with ALL coefficients symbolic and "
+        "matrix (bit-reversed for reverse_operator=True); expectation() on a sparse DENSITY matrix is decided for every matrix rho (rho = sum_ij r_ij E_ij over real scipy unit "
+        "matrices, an instance of scipy.sparse.spmatrix; value = tr(rho M), linear in the r_ij). get_sparse_operator itself runs on the nine operator shapes with ALL coefficients symbolic and "
         "paddings n in {default, w, w+1, w+2}: a matrix depending on a symbolic coefficient is carried as coefficient x REAL scipy matrix, so that kron, "
         "identity, nonzero, COO assembly and format conversions are executed by the real scipy; z3 decides matrix = sum coeff * tensor product entry by entry "
         "on every path (a coefficient that is exactly zero is a forked path). The text hand-over in get_pauliop_from_coeffs_and_labels is NOT decided by the "
